@@ -174,7 +174,7 @@ func RunSafety(r sim.Src, mons []*sim.Mon, keepLog bool, sh Shape) *sim.World {
 		TsIncrement:  1_000_000, Epoch: epoch0,
 	}
 	if r.Intn("dynblocktime", 5) == 0 {
-		cfg.MaxTimePerBlock = cfg.TimePerBlock * time.Duration(2+r.Intn("dynratio", 3)) // the maximum-block-time extension is configured
+		cfg.MaxTimePerBlock = cfg.TimePerBlock * time.Duration([]int{2, 3, 4, 6, 8}[r.Intn("dynratio", 5)]) / 2 // the maximum-block-time extension is configured, ratio 1, 1.5, 2, 3 or 4
 	}
 	if r.Intn("blocktimebytip", 4) == 0 {
 		// chain-governed block times: every other height runs eight times faster
